@@ -147,6 +147,42 @@ def gen_tiny_stats(rng, n, kinds):
     return progs
 
 
+def gen_decimal_block(rng, n):
+    """relational operators on functions built from non-dyadic decimal values (0.1, 0.3, 0.7 ...) straight from
+    `from_values`: the stored values are the floats the user passed, so comparisons with those same numbers are exact,
+    whatever has been read from the operand before (a route that re-accumulates the step changes, 0.5 - 0.4 =
+    0.09999999999999998, is not).  No arithmetic on the operands: float addition of decimals is outside the model."""
+    progs = []
+    vals = [Fraction(1, 10), Fraction(3, 10), Fraction(1, 2), Fraction(7, 10), Fraction(0), Fraction(1, 5), Fraction(9, 10)]
+    for _ in range(n):
+        b = Builder(rng.choice(["int", "int", "float", "dt"]))
+        cl = rng.choice("LR")
+        f = rand_spec(rng, cl, maxsteps=5, span=8, nanp=rng.choice([0.0, 0.2]), vals=vals, stepfree_p=0.0)
+        g = rand_spec(rng, cl, maxsteps=4, span=8, nanp=0.0, vals=vals, stepfree_p=0.1)
+        A = b.emit(f, "fromvalues", rng)
+        Bq = b.emit(g, "fromvalues", rng)
+        t = rng.choice(["none", "deltas", "deltas", "both", "stepchanges", "addright"])
+        if t in ("deltas", "both"):
+            b.add(f"touch {A} {t}")
+        elif t == "stepchanges":
+            b.add(f"stepchanges {A}")
+        elif t == "addright":
+            x = b.reg("x")
+            b.add(f"bin {x} add {Bq} {A}")      # being a right operand reads the step changes
+        h = b.reg("h")
+        op = rng.choice(BINOPS_REL)
+        c = "#" + fs(rng.choice(vals))
+        x, y = rng.choice([(A, c), (A, c), (c, A), (A, Bq), (Bq, A)])
+        b.add(f"bin {h} {op} {x} {y}", focus=True)
+        b.add(f"frame {h}", focus=True)
+        xs = " ".join(fs(q) for q in b.critical())
+        b.add(f"sample {h} {xs}", focus=True)
+        b.add(f"frame {A}", focus=True)
+        b.tags.update(kind="decimal", touch=t, op=op)
+        progs.append(b.program())
+    return progs
+
+
 def requery_probe(b, rng, operand, stmt_builder, p=0.15):
     """query - mutate - query: recompute the same operation after an in-place layer on the operand; a memo that
     layer() does not reset would answer from the past"""
@@ -828,7 +864,7 @@ def gen_c10(rng, n, exhaustive=False):
                 progs.append(b.program())
         return progs
     for _ in range(n):
-        b = Builder(pick_domain(rng))
+        b = Builder(pick_domain(rng) if rng.random() < 0.85 else "dtns")
         f = pick_spec(rng, small_p=0.6, nanp=0.3)
         tail_only = rng.random() < 0.15
         if tail_only:
